@@ -1171,7 +1171,11 @@ func (g *gram) external(fr *gframe, c *gconf, site *ssa.Call, callee *ssa.Functi
 		}
 		data := args[1]
 		var out []gres
-		for _, n := range g.writeTo(c, cell, data, pos, fn) {
+		// the write itself is a site: a member name written directly in the function under interpretation has no other
+		g.siteStack = append(g.siteStack, site)
+		written := g.writeTo(c, cell, data, pos, fn)
+		g.siteStack = g.siteStack[:len(g.siteStack)-1]
+		for _, n := range written {
 			var r gval
 			if callee.Name() == "WriteByte" {
 				r = gval{K: gErr, Nil: triYes}
@@ -1530,7 +1534,9 @@ func checkDynamicNames(w *World, c *Check, rule string) {
 		n++
 		f := site.Parent()
 		key := funcName(f) + ":dynamic-names"
-		if why := dedupGuard(w, site); why != "" {
+		if how := nameTransformedAt(w, site); how != "" {
+			c.bad(rule, key, w.InstrPos(site), fmt.Sprintf("%s writes member names that are a transformation of the entry's name (%s) while the test that keeps names apart compares the names as they are: two entries whose names differ only in what the transformation removes (letter case) are written under one and the same member name", funcName(f), how))
+		} else if why := dedupGuard(w, site); why != "" {
 			c.ok(rule, key, w.InstrPos(site), "member names taken from data are written under "+why)
 		} else {
 			c.bad(rule, key, w.InstrPos(site), fmt.Sprintf("%s writes member names taken from data in a loop (reached from %s) without relating the entry's name to the names of the other entries: a value that holds the same name twice is written as an object that repeats a member name", funcName(f), dk.root))
@@ -1620,6 +1626,101 @@ func dedupGuard(w *World, site *ssa.Call) string {
 		walk(g.cond, 0)
 		if found != "" {
 			return found
+		}
+	}
+	return ""
+}
+
+// nameTransformedAt: the text handed to the write at site is the data as it is — seen through conversions, package
+// functions that hand their argument back, and quoting helpers that pass their argument to the escaper — or the result
+// of something that rewrites it (strings.ToLower, a String() method that normalises). Returns a description of the
+// rewriting step, "" when there is none.
+func nameTransformedAt(w *World, site *ssa.Call) string {
+	esc := w.Func("stringBytes")
+	pr := newProver(w)
+	var quotes func(g *ssa.Function, d int) int // index of the parameter g passes on to the escaper, -1 if none
+	quotes = func(g *ssa.Function, d int) int {
+		if g == nil || g.Blocks == nil || d > 2 {
+			return -1
+		}
+		for _, call := range callsIn(g) {
+			cal := call.Common().StaticCallee()
+			if cal == nil {
+				continue
+			}
+			for _, a := range call.Common().Args {
+				for pi, p := range g.Params {
+					if isSameText(pr, a, p, 0) && (cal == esc || quotes(cal, d+1) >= 0) {
+						return pi
+					}
+				}
+			}
+		}
+		return -1
+	}
+	var trace func(v ssa.Value, d int) string
+	trace = func(v ssa.Value, d int) string {
+		if v == nil || d > 10 {
+			return ""
+		}
+		v = unwrap(v)
+		call, ok := v.(*ssa.Call)
+		if !ok {
+			return ""
+		}
+		cal := call.Common().StaticCallee()
+		if cal == nil {
+			return ""
+		}
+		if !w.InPkg(cal) {
+			if cal.Object() != nil && cal.Object().Pkg() != nil {
+				switch cal.Object().Pkg().Path() {
+				case "strings", "bytes", "unicode", "golang.org/x/text/cases":
+					for _, a := range call.Common().Args {
+						if isStringish(a.Type()) || isByteSlice(a.Type()) {
+							return extName(cal)
+						}
+					}
+				}
+			}
+			return ""
+		}
+		sum := symReturns(pr, cal, 0, map[*ssa.Function]bool{})
+		allParam := len(sum) > 0
+		for _, sv := range sum {
+			if sv.kind != "param" {
+				allParam = false
+			}
+		}
+		if allParam {
+			for _, sv := range sum {
+				if sv.param < len(call.Common().Args) {
+					if how := trace(call.Common().Args[sv.param], d+1); how != "" {
+						return how
+					}
+				}
+			}
+			return ""
+		}
+		if qi := quotes(cal, 0); qi >= 0 && qi < len(call.Common().Args) {
+			return trace(call.Common().Args[qi], d+1)
+		}
+		// a package function that computes the text: look at what it returns
+		for _, rb := range returnBlocks(cal) {
+			ret := rb.Instrs[len(rb.Instrs)-1].(*ssa.Return)
+			for _, r := range ret.Results {
+				if how := trace(r, d+1); how != "" {
+					return funcName(cal) + " → " + how
+				}
+			}
+		}
+		return ""
+	}
+	for _, a := range site.Common().Args {
+		if isStringish(a.Type()) || isByteSlice(a.Type()) {
+			if how := trace(a, 0); how != "" {
+				return how
+			}
 		}
 	}
 	return ""
